@@ -13,6 +13,62 @@ COMMON_NOTE = ('Trusted: Coq 8.16.1 kernel (full .vo builds, vm_compute for fini
                'harness and oracles. Axioms: see Print Assumptions output copied into the evidence file.')
 
 CLAIMED = {
+    'C03': dict(
+        text='Theorems C03_same_tokens / C03_tokens_any_context (Proofs/PrettyToks3.v, by induction over unbounded values): '
+             'width and ribbon are not inputs of the document python_to_sdocs builds, and for every well-formed value '
+             '(built-ins, subclass instances, commented values, pretty_call objects, paths) the documents built under '
+             'any two indents / multiline strategies / comment placements denote in EVERY layout the same token '
+             'sequence etoks(expr_of v), which mentions none of the layout settings. The clause "every line is indented '
+             'by a multiple of indent" and the ast equality are checked on the implementation by the oracle (ast.dump '
+             'under 4 configurations per value, leading spaces of every line) and through the model correspondence; they '
+             'are not proved at the text level (partial).',
+        design='5.3 C03', technique='Coq proof (denotation lemma, induction on the value) + differential correspondence + ast oracle',
+        note=COMMON_NOTE + ' Fragment-level tokens: the theorems are stated on the token class each fragment carries; that the concatenated text lexes/parses to those tokens and that PyEval.eval agrees with CPython is validated by the oracle (tokenize/ast/eval on every generated output), not proved. repr(float), set iteration order and the order returned by sorted() are observed inputs of the model.'),
+    'C08': dict(
+        text='Theorems C08_denotes and C08_roundtrip (Proofs/PrettyToks3.v, EvalRT.v): for every subclass instance of '
+             'the nine base types, nested anywhere, in every layout the printed document denotes etoks(expr_of), and '
+             'that expression evaluates under PyEval.eval with the class in scope to VSub cls (base value): cls(lit), '
+             'cls() for empty containers, cls(\'inf\'), cls([..]) for frozensets, 1-tuples with their comma; unbounded '
+             'values. __repr__/__str__ overrides cannot matter: the model prints from the base value only, and the '
+             'correspondence run compares it with pformat on subclasses that override them (plain / __repr__ / __str__ '
+             'flavours, IntEnum) in 9 placements, widths 1..200, incl. the boundary family around the line width.',
+        design='5.3 C08', technique='Coq proofs (denotation lemma; evaluation round trip) + differential correspondence + eval oracle',
+        note=COMMON_NOTE + ' Fragment-level tokens: the theorems are stated on the token class each fragment carries; that the concatenated text lexes/parses to those tokens and that PyEval.eval agrees with CPython is validated by the oracle (tokenize/ast/eval on every generated output), not proved. repr(float), set iteration order and the order returned by sorted() are observed inputs of the model.'),
+    'C09': dict(
+        text='Theorems C09_denotes, C09_comment_text_irrelevant, C09_inert (Proofs/PrettyToks3.v, EvalRT.v): whatever '
+             'comment()/trailing_comment() wrappers with whatever text are attached anywhere, every layout of the '
+             'printed document denotes the tokens of expr_of, which has no access to comment texts and ignores the '
+             'wrappers (a trailing comment only adds a trailing comma); all comment text sits under the COMMENT_SINGLE '
+             'annotation, the only thing the token projection discards; the expression evaluates to the comment-free '
+             'value down to the 1-tuple comma. "Every word appears in order", "valid expression with the same ast" and '
+             '"never degrades to repr" are checked on the implementation by the oracle (12 adversarial texts x 12 node '
+             'kinds x 10 placements, random trees) and through the model correspondence of commentdoc; partial at the '
+             'text level. Open findings: trailing comments on printers without the parameter are dropped; '
+             'Cls({}) vs Cls() for an empty dict subclass. Fixed: commented key sorting.',
+        design='5.3 C09', technique='Coq proofs (denotation lemma with comments; evaluation) + differential correspondence + ast/tokenize oracle',
+        note=COMMON_NOTE + ' Fragment-level tokens: the theorems are stated on the token class each fragment carries; that the concatenated text lexes/parses to those tokens and that PyEval.eval agrees with CPython is validated by the oracle (tokenize/ast/eval on every generated output), not proved. repr(float), set iteration order and the order returned by sorted() are observed inputs of the model.'),
+    'C10': dict(
+        text='Theorems C10_truncated (= eval_expr_of: with max_seq_len = n >= 1 the printed expression evaluates to the '
+             'value with EVERY container at every nesting level cut to its first min(len, n) elements in iteration '
+             'order), C10_notice_seq / C10_notice_text (a longer sequence gets exactly one comment document '
+             '"...and len-n more elements" after its first n element documents, a shorter one none), C10_none '
+             '(Proofs/DocStable.v: for any two limits >= every container length, in particular None = sys.maxsize, the '
+             'printed DOCUMENT and hence the text at every width is identical). Oracle on the implementation: '
+             'eval(output) == truncated value type-exactly, notices == expected counts in document order, None == 10**9.',
+        design='5.3 C10', technique='Coq proofs (evaluation round trip with truncation; document stability) + differential correspondence + oracle',
+        note=COMMON_NOTE + ' Fragment-level tokens: the theorems are stated on the token class each fragment carries; that the concatenated text lexes/parses to those tokens and that PyEval.eval agrees with CPython is validated by the oracle (tokenize/ast/eval on every generated output), not proved. repr(float), set iteration order and the order returned by sorted() are observed inputs of the model.' The dict notice is covered by the correspondence only.'),
+    'C11': dict(
+        text='Theorems C11_denotes (every layout under a depth limit denotes etoks(expr_of) at that depth; expr_of\'s depth '
+             'clauses are the exact cut function), C11_cut_at_zero (each type\'s placeholder), C11_above_height '
+             '(Proofs/DocStable.v, induction on unbounded values: for every depth > nesting height the printed DOCUMENT, '
+             'hence the text at every width, equals the depth=None one; stated for values max_seq_len does not truncate), '
+             'C11_keyword_leaves_refuted. The literal reading of the property is refuted in four by-design classes kept '
+             'as open findings (True/False/None/Ellipsis never cut; str/bytes dict keys do not consume a level; '
+             'float(\'inf\') prints float(str(...)) one level above the cut; empty list/tuple/set printed in full). '
+             'Oracle: parallel walk of the ast of the limited and unlimited outputs (identical above the cut, own-type '
+             'placeholder at nesting >= depth), text identity above the height.',
+        design='5.3 C11', technique='Coq proofs (denotation at a depth; document stability above the height) + differential correspondence + ast oracle',
+        note=COMMON_NOTE + ' Fragment-level tokens: the theorems are stated on the token class each fragment carries; that the concatenated text lexes/parses to those tokens and that PyEval.eval agrees with CPython is validated by the oracle (tokenize/ast/eval on every generated output), not proved. repr(float), set iteration order and the order returned by sorted() are observed inputs of the model.'),
     'C01': dict(
         text='Theorems C01_denotes (Proofs/PrettyToks1-3.v, DocToks.v: structural induction over unbounded values) and '
              'C01_roundtrip / C01_roundtrip_general (Proofs/EvalRT.v, NormFits.v): for every built-in value and every '
